@@ -83,7 +83,10 @@ Parents(g, n) == {t[1] : t \in {u \in ContainsT(g) : u[3] = n}}
 ContainsGraph(g) == FromViews(NodeSet(g), ContainsT(g), {})
 \* every node has at most one containing node and is reachable through containment from a node without one
 Forest(g) == LET cg == ContainsGraph(g)
-                 tops == {i \in Ids(g) : Parents(g, i) = {}} IN
-             /\ \A i \in Ids(g) : Cardinality(Parents(g, i)) <= 1
-             /\ \A i \in Ids(g) : \E r \in tops : i \in ReachAll(cg, r)
+                 CT == ContainsT(g)
+                 par(n) == {t[1] : t \in {u \in CT : u[3] = n}}
+                 tops == {i \in Ids(g) : par(i) = {}}
+                 covered == UNION {ReachAll(cg, r) : r \in tops} IN   \* one traversal per top node (deep chains: hundreds of levels)
+             /\ \A i \in Ids(g) : Cardinality(par(i)) <= 1
+             /\ Ids(g) \subseteq covered
 =============================================================================
